@@ -16,7 +16,7 @@ from featlib import Check, rel
 from cfold import Folder, Num, Obj, LRef, NotConstant
 
 mpmath.mp.dps = 70
-CUB = "/repo/kernel/cubature/"
+CUB = featlib.repo_path("kernel/cubature/")
 
 
 def strip_targs(s):
